@@ -23,11 +23,11 @@ def make(prop, module, gens, prop_file=None, allowed=(), rule="", extra_trusted=
     S.model_targets = [module.replace(".", "/") + ".vo"]
     S.module_overrides = {}
     S.shard_overrides = {}
-    if any(g == "warm" for (g, _, _, _) in gens):
+    for g in sorted(set(g for (g, _, _, _) in gens if g.startswith("warm"))):
         # long unobserved warm-up cases have their own case type (Port/WarmCases.v)
         S.model_targets.append("Port/Warm%s.vo" % prop)
-        S.module_overrides["--gen warm"] = "Port.Warm%s" % prop
-        S.shard_overrides["--gen warm"] = 1
+        S.module_overrides["--gen " + g] = "Port.Warm%s" % prop
+        S.shard_overrides["--gen " + g] = 1
     S.bins = [("port", profile, nq, nt, ["--gen", g]) for (g, profile, nq, nt) in gens]
     S.allowed_axioms = set(allowed)
     S.trusted_base = PORT_TRUSTED + list(extra_trusted)
